@@ -19,6 +19,8 @@ import (
 	"seehuhn.de/go/sfnt/glyph"
 	"seehuhn.de/go/sfnt/header"
 	"seehuhn.de/go/sfnt/kern"
+	"seehuhn.de/go/sfnt/opentype/classdef"
+	"seehuhn.de/go/sfnt/opentype/gdef"
 	"seehuhn.de/go/sfnt/opentype/coverage"
 	"seehuhn.de/go/sfnt/opentype/gtab"
 	"seehuhn.de/go/sfnt/zzverif/simgen"
@@ -329,6 +331,22 @@ func runLayout(c *wk.Case) {
 			if !withLayout || (f.Gsub == nil && f.Gpos == nil) {
 				onePerRune(c, f, strs, out)
 			}
+			if f.Gpos == nil {
+				// widths are assigned after GSUB: without GPOS every non-mark
+				// glyph carries exactly the font's advance width
+				for k, seq := range out {
+					for j, g := range seq {
+						if int(g.GID) >= f.NumGlyphs() || f.Gdef.IsMark(g.GID) {
+							continue
+						}
+						if g.Advance != funit.Int16(f.GlyphWidth(g.GID)) || g.XOffset != 0 || g.YOffset != 0 {
+							c.Fail("advance-after-gsub", "Layout", "no GPOS: glyph %d (position %d of layout %d, strings %q) has advance %d offsets (%d,%d); the font's advance width is %v",
+								g.GID, j, k, strs, g.Advance, g.XOffset, g.YOffset, f.GlyphWidth(g.GID))
+						}
+					}
+				}
+				c.Count("advance_after_gsub_checked_(incidental)", 1)
+			}
 			continue
 		}
 		if d := simgen.DeepDiff(ref, out, 0, false); d != "" {
@@ -407,6 +425,24 @@ func runKern(c *wk.Case) {
 	}
 	f.InstallCMap(m)
 	f.Gsub, f.Gpos, f.Gdef = nil, nil, nil
+	isMark := map[glyph.ID]bool{}
+	if t.Chance(1, 2) {
+		// a GDEF table that classifies some glyphs as marks must not change
+		// which pairs are kerned
+		gd := &gdef.Table{GlyphClass: classdef.Table{}}
+		for g := 1; g < n && g < 40; g++ {
+			switch t.Weighted(3, 2, 2) {
+			case 1:
+				gd.GlyphClass[glyph.ID(g)] = gdef.GlyphClassBase
+			case 2:
+				gd.GlyphClass[glyph.ID(g)] = gdef.GlyphClassMark
+				isMark[glyph.ID(g)] = true
+			}
+		}
+		if len(gd.GlyphClass) > 0 {
+			f.Gdef = gd
+		}
+	}
 	// make it fixed pitch so that Read does not add standard ligatures
 	o := f.Outlines.(*glyf.Outlines)
 	for i := range o.Widths {
@@ -523,10 +559,16 @@ func runKern(c *wk.Case) {
 		if len(seq) != 2 || seq[0].GID != a || seq[1].GID != b {
 			c.Fail("kern", "Layout", "pair (%d,%d) laid out as %v", a, b, seq)
 		}
-		want := funit.Int16(500) + k[glyph.Pair{Left: a, Right: b}]
-		if seq[0].Advance != want || seq[1].Advance != 500 || seq[0].XOffset != 0 || seq[1].XOffset != 0 {
-			c.Fail("kern", "Layout/advance", "pair (%d,%d) with kern value %d: advances (%d,%d), offsets (%d,%d); want (%d,500) and no offsets",
-				a, b, k[glyph.Pair{Left: a, Right: b}], seq[0].Advance, seq[1].Advance, seq[0].XOffset, seq[1].XOffset, want)
+		base := func(g glyph.ID) funit.Int16 {
+			if isMark[g] {
+				return 0 // marks get no advance width
+			}
+			return 500
+		}
+		want := base(a) + k[glyph.Pair{Left: a, Right: b}]
+		if seq[0].Advance != want || seq[1].Advance != base(b) || seq[0].XOffset != 0 || seq[1].XOffset != 0 {
+			c.Fail("kern", "Layout/advance", "pair (%d,%d) with kern value %d (marks: %v,%v): advances (%d,%d), offsets (%d,%d); want (%d,%d) and no offsets",
+				a, b, k[glyph.Pair{Left: a, Right: b}], isMark[a], isMark[b], seq[0].Advance, seq[1].Advance, seq[0].XOffset, seq[1].XOffset, want, base(b))
 		}
 	}
 	for p := range k {
